@@ -60,6 +60,12 @@ ConvFailed(e) ==
   \* (for unknown parts the conversion function may answer less precisely than Convert's identity short-cut: Admits, not equality)
   \cup (IF Has(e, "r3") /\ r.ok /\ Ranked(r.val) /\ (e.r3.ok => Ranked(e.r3.val))
            /\ ~(e.r3.ok /\ Admits(UnmarkDeep(e.r3.val), UnmarkDeep(r.val)) /\ (WhollyKnown(r.val) => e.r3.val = r.val)) THEN {"C08.ConversionIsAFunctionOfItsInput"} ELSE {})
+  \* the conversion for a dynamically typed source, obtained once per target: same outcome as Convert for this value, and the same
+  \* again after it was applied to a value of another type in between
+  \* (for a null or unknown value the dynamic-source conversion answers a null / unknown of the target type whatever the value's own
+  \*  type was - by design - so the outcome is compared for known values only)
+  \cup (IF Has(e, "r4") /\ ((in.st = "k" /\ e.r4.ok # r.ok) \/ (~e.r4.ok /\ e.r4.fail = "panic")) THEN {"C08.ConversionIsAFunctionOfItsInput"} ELSE {})
+  \cup (IF Has(e, "r5") /\ e.r5 # e.r4 /\ (e.r5.ok # e.r4.ok \/ (e.r5.ok /\ e.r5.val # e.r4.val) \/ (~e.r5.ok /\ e.r5.fail = "panic")) THEN {"C08.ConversionIsAFunctionOfItsInput"} ELSE {})
   \* the converted value (and its type) reports the same after the conversions as before
   \cup (IF Has(e, "iv") /\ e.iv # e.iv2 THEN {"C20.Immutable"} ELSE {})
   \cup (IF e.safe = "panic" \/ e.unsafe = "panic" THEN {"C08.NoPanic"} ELSE {})
